@@ -22,6 +22,8 @@ pub const LOG_CAP: usize = 1 << 20;
 
 pub const EV_TS_START: u8 = 1;
 pub const EV_TS_END: u8 = 2;
+pub const EV_BARRIER_ENTER: u8 = 20;
+pub const EV_BARRIER_LEAVE: u8 = 21;
 
 pub static ENABLED: AtomicBool = AtomicBool::new(false);
 
@@ -89,6 +91,13 @@ pub fn log(kind: u8, a: u64, b: u64) {
                 | (a & 0xFFFF_FFFF_FFFF),
             SeqCst,
         );
+    }
+}
+
+/// Logs an event only while the virtual clock is enabled.
+pub fn log_if_enabled(kind: u8) {
+    if ENABLED.load(Relaxed) {
+        log(kind, 0, 0);
     }
 }
 
